@@ -307,10 +307,20 @@ class Switch(Generic[R], GenerativeFunction[R]):
             retdiff = Diff.unknown_change(retval)
 
         if Diff.tree_tangent(idx_diff) == UnknownChange:
-            weight += score - trace.get_score()
-
-        # TODO: this is totally wrong, fix in future PR.
-        bwd_request: Update = rets[0][3]
+            # The branch was re-generated and then constrained: the move's weight is
+            # the score change (the edit weight relative to the discarded fresh trace
+            # must not be counted on top of it).
+            weight = score - trace.get_score()
+            # Going back means restoring every choice of the previous trace.
+            bwd_request: Update = Update(trace.get_choices())
+        else:
+            # Each branch reports its own discarded values; only the executed
+            # branch's are meaningful.
+            bwd_constraints = []
+            for _, _, _, bwd in rets:
+                assert isinstance(bwd, Update), type(bwd)
+                bwd_constraints.append(bwd.constraint)
+            bwd_request = Update(ChoiceMap.switch(new_idx, bwd_constraints))
 
         return (
             SwitchTrace(self, primals, subtraces, retval, score),
